@@ -470,9 +470,12 @@ reg_node("C06", "Theorems (node level, every state/input): the commit point the 
          "latest configuration, the leader counting itself only as a voter; the cached voter count/flag always describe the latest configuration "
          "(invariant over all leader events; the pre-repair code broke it); commit advances only to that point, beyond the start of the term, after "
          "flushing the leader's own log; a follower answers success only after flushing what it appended and commits only covered, leader-committed, "
-         "current-term entries. Cluster-level theorem (abstract protocol): see Props/C06.v when present. Monitor: at every commit advance on the "
+         "current-term entries. Cluster-level theorems: Props/C06.v (static voters) and, under membership changes, cfg_committed_durable_on_majority / "
+         "cfg_committed_entry_durable (Props/C08_abs.v): in every reachable state of Abs/CfgRaft.v, for every commit a leader ever performed there is a "
+         "majority of the configuration in force for that leader whose members hold the committed prefix durably - whatever crashes, truncations, "
+         "reconfigurations and installations followed; observed: cfg_observed_commit_durable (Props/CfgTie.v). Monitor: at every commit advance on the "
          "simulated cluster, count the voters that hold the entry flushed.",
-         ["NoDup node ids in a configuration (Go map)"], extra_props=["AbsTie.v", "CfgTie.v"])
+         ["NoDup node ids in a configuration (Go map)"], extra_props=["AbsTie.v", "C08_abs.v", "CfgTie.v"])
 reg_node("C08", "Theorems: every configuration derived by one action is adjacent (voter sets differ in at most one node) and majorities of adjacent "
          "configurations intersect; a submitted configuration is rejected unless the previous one is committed, an own-term entry is committed, no "
          "voting right changes directly, no node vanishes, new nodes are non-voters and a stable voter remains; actions are carried out only when "
